@@ -100,7 +100,22 @@ def rule_r1(ctx, rep):
     f_req = rule_method(prog, "is_required_attribute")
     f_val = rule_method(prog, "allowed_attribute_values")
     stop = False
-    for rname, r in sorted(ctx.tables.rules.items()):
+    # besides the table's own specs an abstract rule with one spec of every kind the format allows (required / optional, with no,
+    # one, several listed values): the helpers must be right for every rule, not only for the kinds the table happens to use today
+    abs_rule = [{"r": [True], "o": [False], "e1": [False, "a"], "e": [False, "a", "b"], "re1": [True, "a"], "re": [True, "a", "b", "c"]}, [],
+                {"content_rules": ["anyContent"]}]
+    items = sorted(ctx.tables.rules.items())
+    try:
+        init0 = rule_method(prog, "__init__")
+        r0 = prog.resolve_name_expr(init0.module, ast.Name(id="rules_dict", ctx=ast.Load()))
+        if r0 and r0[0] == "const":
+            tbl = pe._module_state(r0[1], r0[2], init0, 0)
+            if isinstance(tbl, dict):
+                tbl["<abstract>"] = abs_rule
+                items = [("<abstract>", abs_rule)] + items
+    except (PEvalUnsupported, Raised, AnalysisError):
+        pass
+    for rname, r in items:
         if stop:
             break
         if not (isinstance(r, list) and len(r) == 3 and isinstance(r[0], dict)):
@@ -113,6 +128,8 @@ def rule_r1(ctx, rep):
             pe.call(init, [selfobj, rname])
         except (PEvalUnsupported, Raised, AnalysisError):
             selfobj = {"__obj__": True, "_attributes": dict(r[0]), "attributes": dict(r[0])}
+            if rname == "<abstract>":
+                continue
 
         def long_lived_lists():
             seen, out, todo = set(), [], [selfobj] + [v for k, v in pe.class_state.items()]
@@ -187,8 +204,10 @@ def rule_r2(ctx, rep):
     ABSENT = "<absent>"
     # an attribute can be absent, present with a listed / an unlisted value, or present with the value None (a JSON null, or set
     # programmatically): presence is what counts for "required", the value for the enumeration
-    for combo in itertools.product([ABSENT, "a", "z", None], repeat=4):
-        if sum(1 for v in combo if v is None) > 1:
+    # ... or with a value that is not a string at all (a JSON true / false): it equals the spec's leading flag, so a membership test
+    # against the whole spec instead of the value slice lets it through (seed C03-s1)
+    for combo in itertools.product([ABSENT, "a", "z", None, False, True], repeat=4):
+        if sum(1 for v in combo if v is None or v is False or v is True) > 1:
             continue
         for foreign in (False, True):
             na = {k: v for k, v in zip(rule_attrs, combo) if v is not ABSENT}
@@ -259,16 +278,22 @@ def rule_r2(ctx, rep):
                 if code == "ATTRIBUTE_UNRECOGNIZED":
                     return a in na and a not in rule_attrs
                 return a in na and a in rule_attrs and len(rule_attrs[a]) > 1 and na[a] not in rule_attrs[a][1:]
-            for a in list(coll_d):
+            # what the loop really ranges over (a derived collection -- "the required attributes", items() pairs -- folds to its
+            # elements; anything unreadable falls back to the keys of the rule's / the node's attribute table)
+            try:
+                elems = pe.eval(loop.iter, {s: selfobj, nodep: nodeobj, mp: None}, fi, 0)
+                elems = list(elems) if isinstance(elems, (list, tuple, set, frozenset, dict)) and not (isinstance(elems, dict) and "__obj__" in elems) else None
+            except (PEvalUnsupported, Raised):
+                elems = None
+            if elems is None:
+                elems = [(a, coll_d[a]) for a in coll_d] if isinstance(tgt, ast.Tuple) else list(coll_d)
+            for el in elems:
+                a = el[0] if isinstance(tgt, ast.Tuple) and isinstance(el, tuple) and el else el
                 env = {s: selfobj, nodep: nodeobj, mp: None}
-                if isinstance(tgt, ast.Name):
-                    env[tgt.id] = a
-                elif isinstance(tgt, ast.Tuple) and len(tgt.elts) == 2:
-                    # `for name, spec in X.items()` -- spec possibly destructured further (required, *values)
-                    try:
-                        pe.assign(tgt, (a, coll_d[a]), env, fi, 0)
-                    except PEvalUnsupported as ex:
-                        raise AnalysisError(f"{fi.loc(loop)}: cannot bind the loop target `{norm(tgt)}`: {ex}")
+                try:
+                    pe.assign(tgt, el, env, fi, 0)
+                except (PEvalUnsupported, Raised) as ex:
+                    raise AnalysisError(f"{fi.loc(loop)}: cannot bind the loop target `{norm(tgt)}`: {ex}")
                 try:
                     verdict = guard_verdict(ctx, fi, p.if_node, env, pe)
                     if isinstance(verdict, tuple):
